@@ -35,11 +35,13 @@ def check(ctx: Ctx, col: Collector, tier: str) -> None:
     col.spec("C01.STACK", "every handler accepts every declaration the walker can put below it; pushes and pops balance", "stack-shape analysis of the enter_/leave_ handlers", floor=11)
     col.spec("C01.TABLE", "closed tables cannot miss: every type kind the pipeline can produce is rendered; literal dict lookups have covered keys", "producer set vs. branches; key domains", floor=16)
     col.spec("C01.RAISE-INVENTORY", "every raise/assert reachable from the CLI is the documented rejection, provably unreachable, or guarded by the invariant named next to it",
-             "inventory of raise and assert statements with their dominating conditions", floor=38)
+             "inventory of raise and assert statements with their dominating conditions", floor=36)
     col.spec("C01.PARTIAL-OPS", "constant-index subscripts, pops and unpackings cannot fail", "inventory of partial operations with the fact that makes each safe", floor=78)
     col.spec("C01.FS-TOLERANT", "writing the outputs cannot fail on an existing output directory, on non-ASCII text or on a special float: directories are created with "
              "parents=True / exist_ok=True, files are opened for writing in w/a mode with an explicit UTF-8 encoding, JSON serialisation is not put in a strict mode",
              "inventory of mkdir / touch / open / json.dump call sites and their keyword constants", floor=9)
+    col.spec("C01.IMPORT-SOURCE", "every named type the analyser builds has a non-empty qualified name, so the stub generator's import bookkeeping cannot reject it",
+             "inventory of NamedType / NamedSequenceType constructor calls; constant, guarded or library-guaranteed qname argument", floor=25)
     col.spec("C01.TERM", "the run terminates: loops have a variant, recursion descends", "syntactic variant of every while loop; structural descent of self-recursive calls", floor=50)
 
     # ------------------------------------------------------------------ LIBAPI
@@ -75,6 +77,36 @@ def check(ctx: Ctx, col: Collector, tier: str) -> None:
             else:
                 col.bad("C01.LIBAPI", key, f"src/safeds_stubgen/{rel}:{ln}", f"`{stmt[:70]}` silences {sorted(codes)}",
                         f"{fn}: `{stmt[:60]}` silences a mypy diagnostic {sorted(codes)} that means the statement can fail at run time; no reason is recorded why it cannot")
+    # documented failures of the docstring library's entry point
+    from ..core.libmodel import documented_raises
+    doc_raises = documented_raises("_griffe/loader.py", "GriffeLoader.load")
+    if not doc_raises:
+        raise AnalysisError("griffe's GriffeLoader.load documents no exceptions any more; re-triage the load call")
+    bases_of = {"ModuleNotFoundError": {"ImportError", "Exception", "BaseException"}, "LoadingError": {"GriffeError", "Exception", "BaseException"}}
+    dmi = repo.module(DOCPARSER)
+    nload = 0
+    for fi in dmi.functions.values():
+        for n in ast.walk(fi.node):
+            if isinstance(n, ast.Call) and isinstance(n.func, ast.Name) and n.func.id == "load" and dmi.imports.get("load", ("", None))[0].startswith("griffe"):
+                nload += 1
+                col.touched(fi)
+                caught: set[str] = set()
+                cur, prev = repo.parent(n), n
+                while cur is not None and cur is not fi.node:
+                    if isinstance(cur, ast.Try) and any(prev is x for x in cur.body):
+                        for h in cur.handlers:
+                            caught |= {"BaseException"} if h.type is None else {x.id if isinstance(x, ast.Name) else x.attr for x in ast.walk(h.type) if isinstance(x, (ast.Name, ast.Attribute))}
+                    prev, cur = cur, repo.parent(cur)
+                uncaught = [e for e in doc_raises if e not in caught and not (bases_of.get(e, set()) & caught)]
+                key = f"{DOCPARSER}::{fi.qualname}::griffe-load::documented-failures"
+                if uncaught:
+                    col.bad("C01.LIBAPI", key, repo.loc(DOCPARSER, n), f"griffe documents {doc_raises} for load(); handled here: {sorted(caught) or 'none'}",
+                            f"{fi.qualname}: griffe's load() is documented to raise {uncaught} when it cannot find or load the package (e.g. a source directory without __init__.py whose name "
+                            f"contains a dot, `mylib-1.0/`), and nothing handles it: the run aborts with that error under --docstyle google|numpydoc|rest")
+                else:
+                    col.ok("C01.LIBAPI", key, repo.loc(DOCPARSER, n), f"the documented failures {doc_raises} of griffe's load() are handled ({sorted(caught)})")
+    if nload != 1:
+        raise AnalysisError(f"{nload} calls of griffe's load() found in the docstring parser, 1 expected")
     col.ok("C01.LIBAPI", "package::mypy-diagnostics", "src/safeds_stubgen", f"mypy reports {len(mf.errors)} diagnostics in total, {len(errs)} in repository files with codes {sorted(LIB_CODES)}", nontrivial=True)
 
     # ------------------------------------------------------------------ DISPATCH
@@ -455,8 +487,17 @@ def check(ctx: Ctx, col: Collector, tier: str) -> None:
                 found.setdefault((rel, fi.qualname, exc), []).append((key, repo.loc(rel, n), guard))
     for (rel, qual, exc), sites in found.items():
         entry = RAISE_CLASSES.get((rel, qual, exc))
+        witness = REACHABLE_RAISES.get((rel, qual, exc))
         for i, (key, loc, guard) in enumerate(sites):
-            if entry and i < entry[0]:
+            if witness:
+                col.bad("C01.RAISE-INVENTORY", key, loc, f"{exc} under `{guard}`: reachable", f"{qual} raises {exc} (under `{guard[:60]}`) for ordinary input: {witness}")
+            elif entry and i < entry[0] and entry[1] == "invariant:griffe-none-only-for-init":
+                ok_inv, why = griffe_none_only_for_init(repo)
+                if ok_inv:
+                    col.ok("C01.RAISE-INVENTORY", key, loc, f"{exc} under `{guard}`: invariant: {why}")
+                else:
+                    col.bad("C01.RAISE-INVENTORY", key, loc, f"{exc} under `{guard}`: {why}", f"{qual} raises {exc} (under `{guard[:60]}`): {why}")
+            elif entry and i < entry[0]:
                 col.ok("C01.RAISE-INVENTORY", key, loc, f"{exc} under `{guard}`: {entry[1]}")
             elif entry:
                 col.bad("C01.RAISE-INVENTORY", key, loc, f"{exc} under `{guard}`: {len(sites)} sites in {qual}, {entry[0]} triaged",
@@ -533,6 +574,33 @@ def check(ctx: Ctx, col: Collector, tier: str) -> None:
                     (col.ok if good else col.bad)("C01.FS-TOLERANT", key + f"({m})", repo.loc(rel, n), f"open(mode={m!r}, encoding={enc!r})",
                                                   *([] if good else [f"{fi.qualname}: `{ast.unparse(n)[:60]}` can fail while writing: exclusive mode fails on an existing file, and without an explicit UTF-8 "
                                                                      f"encoding non-ASCII names / docstrings raise UnicodeEncodeError under a non-UTF-8 locale"]))
+                    if "b" not in m:
+                        # text written through the handle: a Python str is not always encodable (lone surrogates from "\\ud800" literals in defaults / docstrings)
+                        w = repo.parent(n)
+                        while w is not None and not isinstance(w, ast.With):
+                            w = repo.parent(w)
+                        handle = next((ast.unparse(it.optional_vars) for it in (w.items if w else []) if it.context_expr is n and it.optional_vars is not None), None)
+                        written = []
+                        for x in ast.walk(w) if w is not None and handle else []:
+                            if isinstance(x, ast.Call) and isinstance(x.func, ast.Attribute) and x.func.attr == "write" and ast.unparse(x.func.value) == handle and x.args:
+                                written.append(("write", x))
+                            if isinstance(x, ast.Call) and ast.unparse(x.func) in ("json.dump",) and len(x.args) > 1 and ast.unparse(x.args[1]) == handle:
+                                written.append(("json", x))
+                        err = const("errors")
+                        tolerant = err in ("backslashreplace", "replace", "ignore", "xmlcharrefreplace", "namereplace", "surrogatepass")
+                        ascii_only = bool(written) and all(k == "json" and not any(kw.arg == "ensure_ascii" and not (isinstance(kw.value, ast.Constant) and kw.value.value is True) for kw in x.keywords) for k, x in written)
+                        ident = IDENTIFIER_ONLY_WRITES.get((rel, fi.qualname))
+                        ekey = key + f"({m})::encodable"
+                        if tolerant:
+                            col.ok("C01.FS-TOLERANT", ekey, repo.loc(rel, n), f"errors={err!r}: unencodable characters are escaped, the write cannot raise UnicodeEncodeError")
+                        elif ascii_only:
+                            col.ok("C01.FS-TOLERANT", ekey, repo.loc(rel, n), "only json.dump output with ensure_ascii (the default) goes through the handle: ASCII only")
+                        elif ident:
+                            col.ok("C01.FS-TOLERANT", ekey, repo.loc(rel, n), f"identifier text only: {ident}")
+                        else:
+                            col.bad("C01.FS-TOLERANT", ekey, repo.loc(rel, n), f"open(mode={m!r}, encoding={enc!r}, errors={err!r}); written: {[ast.unparse(x)[:40] for _, x in written]}",
+                                    f"{fi.qualname}: text derived from the analysed sources is written through `{ast.unparse(n)[:60]}` with the strict error handler: a string default or docstring "
+                                    f"that holds a lone surrogate (`def f(a=\"\\ud800\"): ...`) raises UnicodeEncodeError after the file was created")
                 elif fname in ("dump", "dumps") and recv == "json":
                     col.touched(fi)
                     strict = [k for k in ("allow_nan", "check_circular") if const(k) is False] + [k for k in ("default", "cls") if k in kws]
@@ -540,6 +608,35 @@ def check(ctx: Ctx, col: Collector, tier: str) -> None:
                     (col.ok if good else col.bad)("C01.FS-TOLERANT", key, repo.loc(rel, n), f"json.{fname} keywords {sorted(kws)}",
                                                   *([] if good else [f"{fi.qualname}: `{ast.unparse(n)[:70]}` puts the serialiser in a strict / custom mode ({strict}): a model value such as a default of "
                                                                      f"1e999 (inf) makes it raise after the file was opened"]))
+
+    # ------------------------------------------------------------------ IMPORT-SOURCE
+    nq = 0
+    qseen: dict[str, int] = {}
+    for rel in (VISITOR, HELPERS, DOCPARSER, GETAPI):
+        mi = repo.module(rel)
+        for fi in mi.functions.values():
+            la = None
+            for n in ast.walk(fi.node):
+                if not (isinstance(n, ast.Call) and (getattr(n.func, "attr", None) or getattr(n.func, "id", None)) in ("NamedType", "NamedSequenceType")):
+                    continue
+                q = next((k.value for k in n.keywords if k.arg == "qname"), n.args[1] if len(n.args) > 1 else None)
+                if q is None:
+                    continue
+                nq += 1
+                col.touched(fi)
+                la = la or Lengths(repo, mi, fi, mf)
+                good, why = qname_nonempty(repo, rel, fi, la, mf, n, q)
+                key = f"{rel}::{fi.qualname}::qname={ast.unparse(q)[:50]}"
+                qseen[key] = qseen.get(key, 0) + 1
+                if qseen[key] > 1:
+                    key += f"#{qseen[key]}"
+                if good:
+                    col.ok("C01.IMPORT-SOURCE", key, repo.loc(rel, n), why)
+                else:
+                    col.bad("C01.IMPORT-SOURCE", key, repo.loc(rel, n), f"`{ast.unparse(n)[:80]}`: {why}",
+                            f"{fi.qualname} builds a named type whose qualified name can be empty ({why}); _add_to_imports raises ValueError('Type has no import source.') for it and the run aborts")
+    if nq < 20:
+        raise AnalysisError(f"only {nq} named-type constructor calls found")
 
     # ------------------------------------------------------------------ TERM
     nt = 0
@@ -601,7 +698,6 @@ RAISE_CLASSES = {
     (VISITOR, f"{VCLS}._is_attribute_already_defined", "TypeError"): (1, "invariant: called only below a Class or a constructor of a Class (enter_assignmentstmt guards, C01.STACK)"),
     (VISITOR, f"{VCLS}._create_attribute", "AttributeError"): (2, "decided by C01.DISPATCH (targets): only NameExpr / MemberExpr reach it, both carry name and node (library model)"),
     (VISITOR, f"{VCLS}._create_attribute", "AssertionError"): (1, "invariant: attributes are created below a Class or its constructor only (C01.STACK)"),
-    (VISITOR, f"{VCLS}._parse_parameter_data", "ValueError"): (1, "library: mypy gives every argument variable of an analysed function a type (Any when unannotated)"),
     (VISITOR, f"{VCLS}._parse_parameter_data", "TypeError"): (1, "invariant: the default-value helper returns str/int/float/bool/None/UnknownValue (C06.LITERAL-VALUE)"),
     (VISITOR, f"{VCLS}._get_parameter_type_and_default_value", "TypeError"): (1, "decided by C01.DISPATCH (_get_parameter_type_and_default_value::total)"),
     (VISITOR, f"{VCLS}._create_inferred_results", "TypeError"): (1, "invariant: only NamedType / TupleType are collected by the inference (C07.INFER-COLLECT)"),
@@ -613,14 +709,108 @@ RAISE_CLASSES = {
     (WALKER, "ASTWalker.__get_callbacks", "AttributeError"): (1, "library: ClassDef declares base_type_exprs (library model)"),
     (GETAPI, "_get_mypy_asts", "ValueError"): (1, "library: mypy keeps the tree of every module of the build when preserve_asts is set"),
     (GEN, f"{GENCLS}._create_type_string", "ValueError"): (1, "decided by C01.TABLE (producer kinds)"),
-    (GEN, f"{GENCLS}._add_to_imports", "ValueError"): (1, "superclass names: decided by C01.DISPATCH (superclass-without-fullname); type names: library - qualified names of types come from "
-                                                        "mypy TypeInfo fullnames / griffe canonical paths and are not empty, unresolved ones become UnknownType in mypy_type_to_abstract_type"),
-    (DOCPARSER, "DocstringParser.get_class_documentation", "TypeError"): (1, "invariant: _get_griffe_node returns None only for a part named __init__ below a class; class lookups end in the class name"),
+    (GEN, f"{GENCLS}._add_to_imports", "ValueError"): (1, "superclass names: decided by C01.DISPATCH (superclass-without-fullname); type names: decided by C01.IMPORT-SOURCE"),
+    (DOCPARSER, "DocstringParser.get_class_documentation", "TypeError"): (1, "invariant:griffe-none-only-for-init"),
     (DOCPARSER, "DocstringParser.get_parameter_documentation", "TypeError"): (1, "library: griffe's parameters section holds DocstringParameter entries"),
-    (DOCPARSER, "DocstringParser._get_griffe_node", "ValueError"): (1, "library: every module mypy analysed is a member of the package tree griffe loaded from the same directory"),
     (DOCHELPERS, "get_full_docstring", "TypeError"): (1, "invariant: called with ClassDef / FuncDef nodes only (C13.SAME-SUBJECT)"),
 }
 
+
+# Raises that were triaged as unreachable by a library assumption and then shown reachable by an input (a sub-agent's
+# runtime oracle on the unmodified tree): (module, function, exception) -> the input that reaches it.
+REACHABLE_RAISES = {
+    (VISITOR, f"{VCLS}._parse_parameter_data", "ValueError"):
+        "mypy leaves Var.type None (declared `Type | None` in mypy/nodes.py) for the arguments of functions it does not analyse: `def f(x): ...` after a module-level "
+        "`if sys.platform != \"win32\": raise ImportError(...)` (unreachable for mypy) or below `@typing.no_type_check` aborts with ValueError('Argument has no type.')",
+    (DOCPARSER, "DocstringParser._get_griffe_node", "ValueError"):
+        "mypy visits declarations griffe's tree does not contain: methods the dataclass plugin generates (`@dataclass(order=True)`, `__post_init__`), overloads without an "
+        "implementation, a definition shadowed by a later import, modules of a sub-directory without __init__.py, files griffe cannot decode: with --docstyle google|numpydoc|rest "
+        "the lookup has no fallback and aborts with ValueError('Something went wrong while searching for the docstring ...')",
+}
+
+
+def griffe_none_only_for_init(repo) -> tuple[bool, str]:
+    """get_class_documentation treats a missing griffe node as an internal error: sound only while _get_griffe_node
+    returns None for nothing but a part named __init__ below a class."""
+    fi = repo.function(DOCPARSER, "DocstringParser._get_griffe_node")
+    for n in ast.walk(fi.node):
+        if isinstance(n, ast.Return) and (n.value is None or (isinstance(n.value, ast.Constant) and n.value.value is None)):
+            cur, prev, guarded = repo.parent(n), n, False
+            while cur is not None and cur is not fi.node:
+                if isinstance(cur, ast.If) and any(prev is x for x in cur.body) and "'__init__'" in ast.unparse(cur.test):
+                    guarded = True
+                prev, cur = cur, repo.parent(cur)
+            if not guarded:
+                return False, f"_get_griffe_node returns None at line {n.lineno} for a declaration griffe does not know; a class lookup then raises TypeError"
+    return True, "_get_griffe_node returns None only for a part named __init__ below a class; class lookups end in the class name"
+
+
+# Qualified-name expressions whose non-emptiness follows from a fact the syntax does not show.
+QNAME_FACTS = {
+    (VISITOR, f"{VCLS}._infer_type_from_return_stmts", "expr_type.fullname"):
+        "expr_type is `<self argument>.type.type`: the TypeInfo of the class the method is defined in (Instance.type), whose fullname mypy sets when it builds the class",
+}
+NONEMPTY_LIB_ATTRS = {
+    "canonical_path": "griffe: Expr.canonical_path of a name falls back to the (non-empty) identifier itself when the name cannot be resolved",
+}
+
+
+def _truthy_at(la: Lengths, node: ast.AST, text: str) -> str | None:
+    for cond, truth, line in la.dominating(node):
+        c = cond
+        t = truth
+        while isinstance(c, ast.UnaryOp) and isinstance(c.op, ast.Not):
+            c, t = c.operand, not t
+        if t and ast.unparse(c) == text:
+            return f"dominated by a truth test of `{text}` (line {line})"
+        if t and isinstance(c, ast.BoolOp) and isinstance(c.op, ast.And) and any(ast.unparse(v) == text for v in c.values):
+            return f"dominated by `{ast.unparse(c)[:50]}` (line {line})"
+        if not t and isinstance(c, ast.BoolOp) and isinstance(c.op, ast.Or) and any(isinstance(v, ast.UnaryOp) and isinstance(v.op, ast.Not) and ast.unparse(v.operand) == text for v in c.values):
+            return f"dominated by the failure of `{ast.unparse(c)[:50]}` (line {line})"
+        if isinstance(c, ast.Compare) and len(c.ops) == 1 and ast.unparse(c.left) == text and isinstance(c.comparators[0], ast.Constant) and c.comparators[0].value == "":
+            if (isinstance(c.ops[0], ast.NotEq) and t) or (isinstance(c.ops[0], ast.Eq) and not t):
+                return f"dominated by `{text} != ''` (line {line})"
+    return None
+
+
+def qname_nonempty(repo, rel: str, fi, la: Lengths, mf, at: ast.AST, q: ast.expr, depth: int = 0) -> tuple[bool, str]:
+    src = ast.unparse(q)
+    if isinstance(q, ast.Constant):
+        return (bool(q.value) and isinstance(q.value, str)), f"constant {q.value!r}"
+    if isinstance(q, ast.JoinedStr):
+        lit = "".join(v.value for v in q.values if isinstance(v, ast.Constant) and isinstance(v.value, str))
+        return bool(lit), f"f-string with the literal part {lit!r}"
+    g = _truthy_at(la, at, src)
+    if g:
+        return True, g
+    fact = QNAME_FACTS.get((rel, fi.qualname, src))
+    if fact:
+        return True, fact
+    if isinstance(q, ast.Name) and depth < 3:
+        defs = [a for a in ast.walk(fi.node) if isinstance(a, ast.Assign) and a.lineno < at.lineno and len(a.targets) == 1 and isinstance(a.targets[0], ast.Name) and a.targets[0].id == q.id]
+        if defs:
+            d = max(defs, key=lambda a: a.lineno)
+            return qname_nonempty(repo, rel, fi, la, mf, d, d.value, depth + 1)
+        return False, f"`{src}` is not bound by a simple assignment and no truth test dominates its use"
+    if isinstance(q, ast.Attribute) and q.attr == "fullname":
+        t = mf.type_of(rel, q.value) or "?"
+        if "TypeInfo" in t and "None" not in t:
+            return True, f"`{src}`: fullname of a {t.split('.')[-1]} - mypy sets it from the class definition for every class it builds"
+        if any(k in t for k in ("NameExpr", "MemberExpr", "RefExpr")):
+            return False, f"`{src}` is the fullname of a {t.split('.')[-1]}, which mypy initialises to '' and leaves empty for names it cannot bind (mypy/nodes.py RefExpr.__init__); no truth test dominates the use"
+        return False, f"`{src}`: receiver type {t} is not known to carry a non-empty fullname"
+    if isinstance(q, ast.Attribute) and q.attr in NONEMPTY_LIB_ATTRS:
+        return True, f"`{src}`: {NONEMPTY_LIB_ATTRS[q.attr]}"
+    if isinstance(q, ast.Call) and isinstance(q.func, ast.Attribute) and q.func.attr == "replace" and isinstance(q.func.value, ast.Attribute) and q.func.value.attr == "id" \
+            and len(q.args) == 2 and isinstance(q.args[1], ast.Constant) and q.args[1].value:
+        return True, f"`{src}`: the id of a model object (module id plus names), separators replaced by a non-empty string"
+    return False, f"`{src}` is not a constant, a guarded value or a library attribute known to be non-empty"
+
+
+# Text-mode writes that only carry identifiers and fixed text (identifiers cannot hold surrogates).
+IDENTIFIER_ONLY_WRITES = {
+    (GENSTUBS, "_create_outside_package_class"): "the placeholder stub consists of fixed text, the dotted module path and the class name of a type of another library",
+}
 
 # Silenced diagnostics (`# type: ignore[code]` with a code that means a failing statement), each with its reason.
 SILENCED = {
@@ -642,7 +832,6 @@ LENGTH_INVARIANTS = {
     (VISITOR, f"{VCLS}.mypy_type_to_abstract_type", "self.__declaration_stack"): (1, "stack"),
     (VISITOR, f"{VCLS}._find_alias", "self.__declaration_stack"): (1, "stack"),
     (VISITOR, f"{VCLS}._is_public", "self.__declaration_stack"): [(1, "stack"), (2, "stack-top-is-declaration")],
-    (VISITOR, f"{VCLS}.mypy_type_to_abstract_type", "mypy_type.args"): (2, "lib:Instance.args of dict/Mapping: mypy fills omitted type arguments with Any, so both arguments are present"),
     (DOCPARSER, "DocstringParser.get_result_documentation", "all_returns.value"): (1, "lib:a returns section produced by griffe holds at least one entry"),
     (WALKER, "ASTWalker.__walk", "node.items"): (1, "lib:OverloadedFuncDef.items is never empty (mypy builds the node from at least one decorated definition)"),
     (GENSTUBS, "_create_outside_package_class", "path_parts"): (1, "producer-dotted"),
